@@ -11,12 +11,16 @@ from einx._src.frontend.backend import Backend, BackendRegistryState, InvalidBac
 from einx._src.frontend.errors import BackendResolutionError
 
 
-class K1:  # tensor type of synthetic framework 1
-    pass
+def _tensor_class():
+    class Tensor:  # two frameworks whose tensor classes have the same bare name (torch.Tensor, tinygrad.Tensor, ...)
+        pass
+
+    return Tensor
 
 
-class K2:  # tensor type of synthetic framework 2
-    pass
+K1 = _tensor_class()  # tensor type of synthetic framework 1
+K2 = _tensor_class()  # tensor type of synthetic framework 2: a different class with the same __name__/__qualname__
+assert K1 is not K2 and K1.__name__ == K2.__name__
 
 
 class KU:  # a type no backend accepts
